@@ -51,7 +51,7 @@ def cases(tier, seed):
     for d in (2, 3):
         exts = [[4, 4], [2, 6]] if d == 2 else [[2, 2, 2], [2, 4, 2]]
         chans = ([1, 2, 4, 6] if tier == "thorough" else [1, 2, 4]) if d == 2 else ([2, 4] if tier == "thorough" else [2])
-        for sig in ("00", "01", "10", "11", "mixed"):
+        for sig in ("00", "01", "10", "11", "mixed", "mixed-s-first"):
             for c in chans:
                 for groups in [g_ for g_ in range(1, c + 1) if c % g_ == 0]:
                     for eps in ("default", 0):
@@ -83,6 +83,8 @@ def _sig(name, c):
         return m[name]
     if name == "mixed":
         return [((1, 0), c), ((0, 1), c), ((0, 0), c), ((1, 1), c)]
+    if name == "mixed-s-first":
+        return [((0, 0), c), ((0, 1), c), ((1, 0), c)]
     return [((2, 0), c), ((0, 1), c), ((1, 1), c), ((0, 0), c)]
 
 
